@@ -12,8 +12,11 @@ TXN = "storage::StorageTxn"
 def _has(v, pred, depth=0):
     if depth > 30:
         return False
-    if pred(v):
-        return True
+    try:
+        if pred(v):
+            return True
+    except (IndexError, TypeError):
+        pass
     if isinstance(v, tuple):
         return any(_has(x, pred, depth + 1) for x in v if isinstance(x, tuple))
     return False
